@@ -7,7 +7,10 @@ package main
 
 import (
 	"fmt"
+	"math/big"
 	"strings"
+
+	"github.com/ethereum/go-ethereum/crypto"
 )
 
 type treeOpts struct {
@@ -99,6 +102,16 @@ func genTreeScenario(seed uint64, o treeOpts) *Scenario {
 		p := &Program{}
 		var pre, body, post []Macro
 		hasStr := false
+		hasLong := false
+		if o.journal && r.P(1, 3) {
+			// a long (40-byte) string journaled with the reference-change instruction: its data
+			// lives in the slots after the hash of the slot number
+			hasLong = true
+			pre = append(pre, nameWord("lstr")...)
+			pre = append(pre, Macro{K: "op", Op: "RSVJNAL", A: []string{"0x200", "0x7", typeID("string")}})
+			pre = append(pre, Macro{K: "op", Op: "SSTORE", A: []string{"0x7", "0x51"}})
+			pre = append(pre, Macro{K: "op", Op: "VRJNAL", A: []string{"0x7", typeID("string")}})
+		}
 		if o.journal {
 			pre = append(pre, journalVar(fmt.Sprintf("v%d", i), 1)...)
 			if r.Bool() {
@@ -180,6 +193,9 @@ func genTreeScenario(seed uint64, o treeOpts) *Scenario {
 				switch r.Intn(8) {
 				case 0:
 					gas = hxu(uint64(r.Intn(2500)))
+					if r.P(1, 4) {
+						gas = "0x0" // the callee starts (and ends) with no gas at all
+					}
 				case 1, 2:
 					gas = hxu(uint64(20000 + r.Intn(100000)))
 				}
@@ -267,6 +283,18 @@ func genTreeScenario(seed uint64, o treeOpts) *Scenario {
 		}
 		acc := Account{Addr: contractAddr(i), Balance: hxu(uint64(1000 + r.Intn(4000))), Nonce: 1, Code: p,
 			Storage: map[string]string{"0x1": "0x11", "0x9": "0x99"}}
+		if hasLong {
+			// distinct words around both candidate data positions (hash of the 32-byte slot and hash of
+			// its trimmed bytes), so that reading from a shifted position is visible in the journal
+			for _, seedBytes := range [][]byte{{7}, append(make([]byte, 31), 7)} {
+				h := new(big.Int).SetBytes(crypto.Keccak256(seedBytes))
+				for k := int64(0); k < 8; k++ {
+					pos := new(big.Int).Add(h, big.NewInt(k))
+					pos.Mod(pos, two256)
+					acc.Storage[hxBig(pos)] = hxu(uint64(0xd000 + 16*int64(len(seedBytes)) + k))
+				}
+			}
+		}
 		sc.Accounts = append(sc.Accounts, acc)
 		if r.Intn(100) < o.bindProb {
 			b := Binding{Contract: contractAddr(i), Point: pick(r, []string{"pre", "post", "both", "both"})}
